@@ -523,7 +523,9 @@ func noReconnectOrder(d *fw.Driver, res *fw.Result, seed int64, order string) er
 
 // KeepaliveAfterHeal is the scenario "after a heal the keepalive works on the new connection" for the
 // checks of other properties (C17: a healthy link — also a re-established one — is never dropped).
-func KeepaliveAfterHeal(d *fw.Driver, res *fw.Result, seed int64) error { return keepalive(d, res, seed) }
+func KeepaliveAfterHeal(d *fw.Driver, res *fw.Result, seed int64) error {
+	return keepalive(d, res, seed)
+}
 
 // keepalive: after a heal the keepalive works on the new connection.
 func keepalive(d *fw.Driver, res *fw.Result, seed int64) error {
@@ -631,5 +633,50 @@ func Scenarios(d *fw.Driver, res *fw.Result, seed int64, thorough bool) error {
 	if err := noReconnect(d, res, seed+200); err != nil {
 		return err
 	}
+	for _, status := range []int{503, 404} {
+		if err := OutageHTTP(res, seed+400, status); err != nil {
+			return err
+		}
+	}
 	return keepalive(d, res, seed+300)
+}
+
+// OutageHTTP: during the outage something still answers on the server's address — a front end that replies to
+// the upgrade request with an HTTP error while the service restarts.  That is a failed dial like any other:
+// the client keeps redialling and heals when the service is back.
+func OutageHTTP(res *fw.Result, seed int64, status int) error {
+	sig := fmt.Sprintf("outage answered with HTTP %d", status)
+	c := map[string]interface{}{"scenario": "outage-http", "status": status}
+	e, err := scen.NewEnv(seed+int64(status), 0)
+	if err != nil {
+		return err
+	}
+	defer e.Close()
+	ctx, cancel := context.WithCancel(context.Background())
+	defer cancel()
+	cl, closer, err := e.Client(ctx, jsonrpc.WithReconnectBackoff(minD, maxD), jsonrpc.WithPingInterval(0), jsonrpc.WithTimeout(0))
+	if err != nil {
+		return err
+	}
+	defer scen.WithTimeout(3*time.Second, closer)
+	if v, err := cl.Add(1, 2); err != nil || v != 3 {
+		return fmt.Errorf("harness error: first call failed: %v", err)
+	}
+	acc0 := len(e.PX.AcceptTimes())
+	e.PX.SetRefuseHTTP(status)
+	e.PX.Cut(0, "rst")
+	for w := 0; w < 4000 && len(e.PX.AcceptTimes())-acc0 < 3; w++ {
+		time.Sleep(time.Millisecond)
+	}
+	refused := len(e.PX.AcceptTimes()) - acc0
+	e.PX.SetRefuseHTTP(0)
+	if refused < 2 {
+		res.Add(fw.Finding{Kind: "monitor", Signature: sig + " gives up", Detail: fmt.Sprintf("after %d dial(s) answered with HTTP %d the client stopped redialling", refused, status), Case: c})
+	}
+	if !probe(cl, 5*time.Second) {
+		res.Add(fw.Finding{Kind: "monitor", Signature: sig + " no heal", Detail: fmt.Sprintf("the client did not become usable again within 5s of the service being back (%d dials had been answered with HTTP %d)", refused, status), Case: c})
+	}
+	res.Count("scenario.outage-http")
+	res.Eval(true, []interface{}{"outage-http", status})
+	return nil
 }
